@@ -81,6 +81,7 @@ class Harness(object):
         self.engine = db_api.get_placement_engine()
         if image is None:
             migration.create_schema(self.engine)
+            self._no_id_reuse()
         else:
             self.write_image(image)
         self.schema_image = self.read_image()
@@ -94,6 +95,33 @@ class Harness(object):
             self.app = deploy.deploy(conf)
             placement_policy.init(conf)
         self.base_image = self.read_image()
+
+    def _no_id_reuse(self):
+        """Substrate fidelity: MySQL auto_increment and PostgreSQL sequences never hand out a
+        surrogate key twice, while a plain SQLite INTEGER PRIMARY KEY reuses max(rowid)+1 after
+        the highest row is deleted (an allocation id read by one request could then name a row
+        written later by another). Recreate the (still empty) tables with AUTOINCREMENT. Harness
+        side only; the schema is otherwise exactly what placement's create_schema() produced."""
+        import re
+        import sqlite3
+        self.engine.dispose()
+        c = sqlite3.connect(self.dbfile)
+        tables = c.execute("select name, sql from sqlite_master where type='table'").fetchall()
+        indexes = c.execute("select tbl_name, sql from sqlite_master where type='index' and sql "
+                            "is not null").fetchall()
+        for name, sql in tables:
+            if 'PRIMARY KEY (id)' not in sql or 'AUTOINCREMENT' in sql:
+                continue
+            new = re.sub(r'\bid INTEGER NOT NULL', 'id INTEGER PRIMARY KEY AUTOINCREMENT NOT NULL',
+                         sql, count=1)
+            new = re.sub(r',?\s*PRIMARY KEY \(id\)', '', new, count=1)
+            c.execute('drop table %s' % name)
+            c.execute(new)
+            for tbl, isql in indexes:
+                if tbl == name:
+                    c.execute(isql)
+        c.commit()
+        c.close()
 
     # -- database image ----------------------------------------------------------------
     def read_image(self):
